@@ -78,7 +78,7 @@ def max_bits(d):
 
 
 ROUTES = [("obj",), ("xml", "prefix", False, False), ("xml", "default", True, False, "rev"), ("xml", "none", False, True),
-          ("xml", "prefix", True, True, "rev")]
+          ("xml", "prefix", True, True, "rev"), ("obj", "rev"), ("obj", "shared")]
 
 
 def special_defns():
